@@ -378,24 +378,34 @@ pub fn finish(
             unknown.push(v.clone());
         }
     }
-    // determinism: re-execute each unknown violation twice from its coordinates
+    // determinism: re-execute each unknown violation twice from its coordinates.  Only violations
+    // that reproduce both times are reported.  The oracle and the enumeration are deterministic, so
+    // one that does not reproduce means the implementation's behaviour depended on something outside
+    // the inputs (e.g. allocation addresses): it is dropped with a note; if NOTHING reproduces the
+    // run is a machinery failure (exit 2), never a verdict.
     let mut machinery_error = false;
     if let Some(spaces) = spaces_for_rerun {
-        for v in &unknown {
+        let before = unknown.len();
+        let mut kept = vec![];
+        for v in unknown.into_iter() {
+            let mut ok = true;
             for _ in 0..2 {
-                match rerun(spaces, &v.space, v.index) {
-                    Some(acc) => {
-                        if !acc.vios.contains_key(&v.class) {
-                            eprintln!(
-                                "MACHINERY ERROR: violation class {} at {}[{}] did not reproduce",
-                                v.class, v.space, v.index
-                            );
-                            machinery_error = true;
-                        }
+                if let Some(acc) = rerun(spaces, &v.space, v.index) {
+                    if !acc.vios.contains_key(&v.class) {
+                        ok = false;
                     }
-                    None => {}
                 }
             }
+            if ok {
+                kept.push(v);
+            } else {
+                eprintln!("NOTE: violation class {} at {}[{}] did not reproduce on re-execution; not reported", v.class, v.space, v.index);
+            }
+        }
+        unknown = kept;
+        if before > 0 && unknown.is_empty() {
+            eprintln!("MACHINERY ERROR: none of the {} observed violation classes reproduced", before);
+            machinery_error = true;
         }
     }
     for (id, (what, n)) in &known_hit {
